@@ -264,6 +264,8 @@ class FS:
         self.locale_utf8 = None   # optional callable() -> bool: is the process's default text encoding UTF-8?
         #                           (asked when a text file is opened without an explicit encoding)
         self.env_asked = set()    # which of these the code under test actually depended on
+        self.umask = 0o022        # the process's file mode creation mask (os.umask changes it)
+        self.modes = {}           # permission bits of what was created or chmod-ed through this layer
 
     # ---- injection points
     def _count(self, kind, path):
@@ -379,6 +381,15 @@ class FS:
                 # the parent was removed (by another thread) after it was seen to exist
                 raise FileNotFoundError(errno.ENOENT, "No such file or directory", d)
             self.b.mkdir1(d)
+            # the leaf gets the requested mode, missing parents the default one; both filtered by the umask
+            self.modes[d] = (mode if i == len(parts) else 0o777) & ~self.umask
+
+    def set_umask(self, mask):
+        old, self.umask = self.umask, mask
+        return old
+
+    def note_created(self, path, mode=0o666):
+        self.modes[path] = mode & ~self.umask
 
     def _need_parent(self, path):
         par = posixpath.dirname(path)
@@ -424,6 +435,8 @@ class FS:
         over = [h for h in self.handles if not h._closed and h.name == dst and not getattr(h, "_orphan", False)]
         frozen = self.b.read(dst) if over and self.b.isfile(dst) else None
         self.b.rename(src, dst)
+        if src in self.modes:
+            self.modes[dst] = self.modes.pop(src)
         for h in self.handles:
             if not h._closed:
                 if h in over:
@@ -488,6 +501,7 @@ class FS:
         self.tick("chmod", path)
         if not (self.b.isfile(path) or self.b.isdir(path)):
             raise FileNotFoundError(errno.ENOENT, "No such file or directory", path)
+        self.modes[path] = mode
 
     def move(self, src, dst):
         """shutil.move for regular files: rename, and on OSError the stdlib's copy + unlink fallback."""
@@ -555,6 +569,7 @@ class FakeFile(_io.BufferedIOBase):
                 b.write(path, b"")
             else:
                 b.create(path, b"")
+                fs.note_created(path)
             self._pos = 0
         elif base in ("x", "x+"):
             fs.tick("open-x", path)
@@ -562,6 +577,7 @@ class FakeFile(_io.BufferedIOBase):
             if b.isfile(path) or b.isdir(path):
                 raise FileExistsError(errno.EEXIST, "File exists", path)
             b.create(path, b"")
+            fs.note_created(path)
             self._pos = 0
         elif base == "a":
             fs.tick("open-a", path)
@@ -570,6 +586,7 @@ class FakeFile(_io.BufferedIOBase):
                 raise IsADirectoryError(errno.EISDIR, "Is a directory", path)
             if not b.isfile(path):
                 b.create(path, b"")
+                fs.note_created(path)
             self._pos = len(b.read(path))
         else:
             raise ValueError("unsupported mode " + mode)
@@ -961,6 +978,7 @@ class Shim:
             if not F.b.isdir(d):
                 raise FileNotFoundError(errno.ENOENT, "No such file or directory", name)
             F.b.create(name, b"")
+            F.note_created(name, 0o600)          # NamedTemporaryFile creates its file with mode 0600
             f = FakeFile.__new__(FakeFile)
             f._fs = F
             f.name = name
@@ -1079,7 +1097,7 @@ class Shim:
         self.os = _NS(
             _real=_os, link=d("link"), path=self.path, fspath=_os.fspath, PathLike=_os.PathLike, sep="/", linesep="\n",
             makedirs=d("makedirs"), remove=d("remove"), unlink=d("remove"), rename=d("rename"),
-            replace=d("rename"), rmdir=d("rmdir"), removedirs=d("removedirs"), listdir=d("listdir"), stat=_stat_fn, chmod=d("chmod"), umask=lambda m: 0o22,
+            replace=d("rename"), rmdir=d("rmdir"), removedirs=d("removedirs"), listdir=d("listdir"), stat=_stat_fn, chmod=d("chmod"), umask=d("set_umask"),
             getenv=lambda k, dflt=None: H.fs.env.get(k, dflt), walk=_walk, getcwd=lambda: "/", environ=EnvProxy(),
             getpid=_os.getpid, error=OSError, mkdir=lambda p, mode=0o777: H.fs.makedirs(p, mode),
             open=os_open, close=os_close, write=os_write, read=os_read, fsync=os_fsync, fdopen=os_fdopen,
